@@ -177,11 +177,94 @@ fn is_args_in_token(token: &str) -> bool {
     libs::re::re_contains(token, r"\$\{?[0-9@]+\}?")
 }
 
-fn expand_args_for_single_token(token: &str, args: &[String]) -> String {
+/// Backslash-escape the characters of a positional parameter's value that
+/// the line parser would read as syntax again, so that the value of `$1`
+/// in an unquoted word arrives as data (blanks still separate words).
+fn escape_arg_value(value: &str) -> String {
+    let mut result = String::new();
+    for c in value.chars() {
+        if "\\'\"`$|;&<>()#".contains(c) {
+            result.push('\\');
+        }
+        result.push(c);
+    }
+    result
+}
+
+/// Whether the text ends inside a quoted part (`FOO="a $1"`).
+fn ends_inside_quotes(text: &str, inside: &mut Option<char>) {
+    let mut escaped = false;
+    for c in text.chars() {
+        if escaped {
+            escaped = false;
+            continue;
+        }
+        match *inside {
+            Some(q) => {
+                if c == '\\' && q == '"' {
+                    escaped = true;
+                } else if c == q {
+                    *inside = None;
+                }
+            }
+            None => {
+                if c == '\\' {
+                    escaped = true;
+                } else if c == '"' || c == '\'' {
+                    *inside = Some(c);
+                }
+            }
+        }
+    }
+}
+
+/// `NAME=$1`: the value is quoted as a whole, which is what the assignment
+/// parser can read back (it does not know backslash escapes).
+fn expand_args_for_assignment(token: &str, args: &[String]) -> Option<String> {
+    let re = Regex::new(r"^([a-zA-Z_][a-zA-Z0-9_]*)=\$\{?([0-9]+|@)\}?$").unwrap();
+    let cap = re.captures(token)?;
+    let value = if &cap[2] == "@" {
+        args[1..].join(" ")
+    } else {
+        match cap[2].parse::<usize>() {
+            Ok(idx) if idx < args.len() => args[idx].clone(),
+            _ => String::new(),
+        }
+    };
+    if !value.contains('\'') {
+        Some(format!("{}='{}'", &cap[1], value))
+    } else if !value.contains(|c| c == '"' || c == '$' || c == '`' || c == '\\') {
+        Some(format!("{}=\"{}\"", &cap[1], value))
+    } else {
+        None
+    }
+}
+
+fn expand_args_for_single_token(token: &str, args: &[String], unquoted: bool) -> String {
     let re = Regex::new(r"^(.*?)\$\{?([0-9]+|@)\}?(.*)$").unwrap();
     if !re.is_match(token) {
         return token.to_string();
     }
+
+    let is_assignment = libs::re::re_contains(token, r"^[a-zA-Z_][a-zA-Z0-9_]*=");
+    if unquoted && is_assignment {
+        if let Some(x) = expand_args_for_assignment(token, args) {
+            return x;
+        }
+    }
+    // (backslash escapes would turn an assignment into a literal word)
+    let unquoted = unquoted && !is_assignment;
+
+    // the values are pasted into the line, which is parsed again later:
+    // outside of quotes their special characters have to be escaped.
+    let mut inside: Option<char> = None;
+    let value_of = |arg: &String, inside: &Option<char>| -> String {
+        if unquoted && inside.is_none() {
+            escape_arg_value(arg)
+        } else {
+            arg.to_string()
+        }
+    };
 
     let mut result = String::new();
     let mut _token = token.to_string();
@@ -199,11 +282,13 @@ fn expand_args_for_single_token(token: &str, args: &[String]) -> String {
             _head = cap[1].to_string();
             _tail = cap[3].to_string();
             let _key = cap[2].to_string();
+            ends_inside_quotes(&_head, &mut inside);
             if _key == "@" {
-                result.push_str(format!("{}{}", _head, args[1..].join(" ")).as_str());
+                let values: Vec<String> = args[1..].iter().map(|x| value_of(x, &inside)).collect();
+                result.push_str(format!("{}{}", _head, values.join(" ")).as_str());
             } else if let Ok(arg_idx) = _key.parse::<usize>() {
                 if arg_idx < args.len() {
-                    result.push_str(format!("{}{}", _head, args[arg_idx]).as_str());
+                    result.push_str(format!("{}{}", _head, value_of(&args[arg_idx], &inside)).as_str());
                 } else {
                     result.push_str(&_head);
                 }
@@ -230,7 +315,7 @@ fn expand_args_in_tokens(tokens: &mut types::Tokens, args: &[String]) {
             continue;
         }
 
-        let _token = expand_args_for_single_token(token, args);
+        let _token = expand_args_for_single_token(token, args, sep.is_empty());
         buff.push((idx, _token));
         idx += 1;
     }
